@@ -467,6 +467,11 @@ def _wrap(args):
     fn, a = args
     signal.signal(signal.SIGINT, signal.SIG_IGN)
     try:
+        import faulthandler
+        faulthandler.register(signal.SIGUSR1, all_threads=True)
+    except Exception:
+        pass
+    try:
         return fn(a)
     except Exception as e:  # a worker must never take the run down silently
         import traceback
